@@ -278,10 +278,6 @@ func c02Run(c *Ctx, t *c02Tables, mem *fastMem, e *aluEnc, base z80.States, d ui
 	var n int64
 	cpu := &z80.CPU{Memory: mem}
 	memOp := e.Loc == lMemHL || e.Loc == lMemIX || e.Loc == lMemIY
-	wantWrites := 0
-	if memOp && e.Kind != kBIT && e.Kind != kALU {
-		wantWrites = 1
-	}
 	reported := 0
 	for a := a0; a < a1; a++ {
 		for _, v := range vs {
@@ -369,16 +365,19 @@ func c02Run(c *Ctx, t *c02Tables, mem *fastMem, e *aluEnc, base z80.States, d ui
 					c.R.Sample(map[string]interface{}{"encoding": e.Name, "bytes": HexBytes(bs), "A": "7F", "operand": "01", "F_in": "01",
 						"A_out": h8(cpu.States.AF.Hi), "F_out": h8(cpu.States.AF.Lo), "operand_out": h8(nv), "oracle_F": h8(nf), "f_mask": h8(mask)})
 				}
-				ok := got == exp && !cpu.HALT && mem.writes == wantWrites
+				// the number and order of bus accesses is C05's subject, not this property's:
+				// only the result, the flags, the operand's final value and the untouched
+				// registers are judged here
+				ok := got == exp && !cpu.HALT
 				if ok && memOp {
-					ok = mem.d[c02Mem] == nv && (wantWrites == 0 || mem.lastW == c02Mem)
+					ok = mem.d[c02Mem] == nv
 				}
 				if !ok {
 					reported++
 					if reported <= 3 {
 						what := "result/flags"
 						if got == exp {
-							what = "memory operand / write count"
+							what = "memory operand"
 						}
 						c.R.Violation(fmt.Sprintf("C02/%s/%s", e.Name, what), map[string]interface{}{
 							"encoding": e.Name, "bytes": HexBytes(bs), "A": h8(uint8(a)), "operand": h8(v), "F": h8(f), "d": h8(d),
@@ -531,7 +530,7 @@ func runC02(c *Ctx) {
 	c.R.Set("steps_displacement_sweep", dsweep)
 	c.R.Set("exhaustive", thorough)
 	if thorough {
-		c.R.Set("rule", "the complete cube A(256) x operand(256) x incoming F(256) through the real CPU.Step for every one of the 559 encodings (degenerate A x F where the operand register is A), plus all 256 displacements on a reduced value set for the indexed forms (also on z80.DumbMemory / z80.MapMemory handed to the CPU directly with the operand at 0005 / FFFA so that IX+d wraps); every 4096th Step continues on a by-value copy of the CPU struct; oracle = pure functions from the reference model's ALU layer (definitional flags), masks for SCF/CCF and BIT on memory; whole States compared (so nothing else may change), memory operand and write count compared. Every (encoding, A, operand, F, d) tuple is enumerated once, so distinct = evaluations by construction; all are non-trivial (each executes the operation under test)")
+		c.R.Set("rule", "the complete cube A(256) x operand(256) x incoming F(256) through the real CPU.Step for every one of the 559 encodings (degenerate A x F where the operand register is A), plus all 256 displacements on a reduced value set for the indexed forms (also on z80.DumbMemory / z80.MapMemory handed to the CPU directly with the operand at 0005 / FFFA so that IX+d wraps); every 4096th Step continues on a by-value copy of the CPU struct; oracle = pure functions from the reference model's ALU layer (definitional flags), masks for SCF/CCF and BIT on memory; whole States compared (so nothing else may change), memory operand's final value compared (the number of bus accesses is C05's subject). Every (encoding, A, operand, F, d) tuple is enumerated once, so distinct = evaluations by construction; all are non-trivial (each executes the operation under test)")
 	} else {
 		c.R.Set("rule", "complete cube A x operand x F for one representative encoding of each operation; for every other encoding all A x operand x 8 F values {00,FF,01,FE,10,02,D7,28}; all 256 displacements on a reduced value set for indexed forms (also on the bundled memory types directly, effective address wrapping); every 4096th Step continues on a by-value copy of the CPU struct; oracle and comparison as in the thorough tier. Every tuple is enumerated once, so distinct = evaluations by construction")
 	}
